@@ -980,6 +980,58 @@ def run_callers(ctx, replay_case):
     ctx.extra["si4_sanitizer_reports_first"] = [report[k] for k in sorted(report)[:3]]
 
 
+def run_composer(ctx, binp, rng):
+    """the consumer at the far end (trx_if.c is anchored in C20): the list the REAL decoder produces is handed, in hopping order, to
+    trxcon's REAL SETFH composer (trx_if_cmd_setfh, ASan/UBSan harness of C05/C14) - the command must carry exactly the decoded
+    list or be refused with nothing sent; in particular 63 / 64 channels whose frequencies need the most characters (DCS band)"""
+    from .. import trxif_util as TI
+    TI.build_harness(ctx)
+    cases = []
+    bands = [("p900", list(range(1, 125))), ("dcs", list(range(512, 886))), ("egsm0", [0] + list(range(975, 1024))), ("dcs-high", list(range(822, 886)))]
+    for name, pool in bands:
+        for size in (1, 2, 17, 50, 61, 62, 63, 64):
+            if size > len(pool):
+                continue
+            for bm in ("ones", "drop-one", "random"):
+                p = list(pool)
+                rng.shuffle(p)
+                ca = sorted(p[:size], key=lambda a: (a == 0, a))
+                nbits = len(ca)
+                length = (nbits + 7) // 8
+                bits = [1] * nbits
+                if bm == "drop-one":
+                    bits[rng.below(nbits)] = 0
+                elif bm == "random":
+                    bits = [1 if rng.chance(3, 4) else 0 for _ in range(nbits)]
+                ma = [0] * length
+                for i, b in enumerate(bits):
+                    if b:
+                        ma[length - 1 - i // 8] |= 1 << (i % 8)
+                cases.append(mk_case(0, length, 0, 0, 0, ma, {a: 1 for a in ca}, "composer %s %d %s" % (name, size, bm)))
+    if ctx.tier == "quick":
+        cases = [c for k, c in enumerate(cases) if c["kind"].split(" ")[2] in ("61", "62", "63", "64", "1") or k % 3 == 0]
+    lines = [line_of(c) for c in cases]
+    impl, _ = run_impl(binp, lines)
+    res = {}
+    for c, o in zip(cases, impl):
+        e = spec(c)
+        if not o or o[0] != 0 or isinstance(e, list) or e is None:
+            continue
+        hopping = o[2:2 + o[1]]
+        if hopping != e[1]:
+            continue          # the decoder itself deviates: reported by the decoder oracle above
+        r = TI.setfh_spec_check(ctx, rng.below(64), rng.below(64), hopping, "c20", extra=dict(path="composer", kind=c["kind"], decoder_case=show(c)["line"]))
+        res[r] = res.get(r, 0) + 1
+        ctx.nontrivial(("composer", c["kind"].split(" ")[1], min(len(hopping), 65), r))
+        ctx.evaluations += 1
+    for r, n in res.items():
+        ctx.count("composer:" + r, n)
+    # and the composer itself against its Coq model (Model/TrxIf.v c_phyif_cmd, the function theorem c20_setfh_carries_exactly_the_list is about)
+    pc = [("setfreq_h1", rng.below(64), rng.below(64), list(o[2:2 + o[1]])) for c, o in zip(cases, impl) if o and o[0] == 0 and 0 < o[1] <= 64]
+    pobs = [TI.parse_cmd_obs(t) for t in TI.run_lines([TI.cmd_line(c) for c in pc])]
+    ctx.correspond("trx_if_cmd_setfh", "TrxIf", list(range(len(pc))), lambda j: TI.m_cmd_line(pc[j]), lambda j: TI.cmd_wire(pobs[j]), show=lambda j: (pc[j][1], pc[j][2], len(pc[j][3]), pc[j][3][:4]))
+
+
 def run(ctx):
     binp, consts = gen(ctx)
     import hashlib
@@ -1084,6 +1136,8 @@ def run(ctx):
         ctx.sample(dict(case=show(cases[k]), impl=impl[k][:12]))
     ctx.extra["sanitizer_reports_first"] = [first_report[k] for k in sorted(first_report)[:3]]
     run_callers(ctx, replay_case)
+    if replay_case is None or replay_case.get("path") == "composer":
+        run_composer(ctx, binp, rng)
     ctx.extra["rule"] = ("grid of lengths 0..9 x cell-allocation sizes {0,1,2,3,7,8,9,15,16,17,31,32,33,63,64,65,66,100,200,1023} x with/without ARFCN 0, "
                          "then random (lengths up to 255); bitmaps random / all ones / single bit / bits beyond the cell allocation / exactly the allocation / zero; "
                          "si4 in {0,1,2,-1}; stale HOPP and other flag bits in the table; short and over-long IE buffers; malformed wire lines; "
